@@ -17,7 +17,7 @@ func init() { evid.RegisterReplay("C01", replay) }
 
 // replay re-judges one recorded case (the "case" object of a replay file) on the current tree: the world is rebuilt from
 // the recorded files and ownership table, built through the API (and, for cli/errors cases, through the CLI on a scratch
-// directory) and judged by the same oracles. Cases of the remote and dup phases need their providers / two views and are
+// directory) and judged by the same oracles; a fault-phase case is rebuilt with its read fault injected. Cases of the remote and dup phases need their providers / two views and are
 // not replayable this way.
 func replay(raw json.RawMessage) (string, bool) {
 	var c Case
@@ -41,6 +41,20 @@ func replay(raw json.RawMessage) (string, bool) {
 		direct = directCompile(w.Texts(), targets)
 	}
 	lines = append(lines, fmt.Sprintf("%s: reference targets %v; bare compiler ok=%v errors=%v", sel, targets, direct.OK, direct.Errors))
+
+	if c.Fault != nil {
+		// fault phase: the recorded read fault is injected again; error or a correct image are both fine
+		if len(targets) == 0 || !direct.OK {
+			return strings.Join(append(lines, "fault case without compilable reference targets"), "\n"), false
+		}
+		v, fired, built := judgeFault(ctx, w, c.Files, sel, *c.Fault, targets, direct, counters{})
+		lines = append(lines, fmt.Sprintf("api with read fault %s: image built=%v fault hit=%v", *c.Fault, built, fired))
+		if v != nil {
+			lines = append(lines, "VIOLATED "+v.sig+": "+v.what)
+			return strings.Join(lines, "\n"), true
+		}
+		return strings.Join(append(lines, "no oracle violated"), "\n"), false
+	}
 
 	// API
 	var obs []obsFile
